@@ -95,13 +95,13 @@ register("C07", "exploration", CONC_RULE,
          COMMON_ASSUME + ["granularity = file-system call and lock operation (what the property names); "
                           "StoreObjectForPidAlreadyInProgress accepted when a concurrent store_object or "
                           "delete_object owns the pid; <= 4 tasks, <= 8 calls per scenario"],
-         60, 600,
+         90, 600,
          [ConcPairsPart("C07", "obj", "conc-pairs", weight=1.0), ConcPart("C07", "obj", weight=2.0, mp="mixed"),
           ConcPairsPart("C07", "obj", "conc-triples", per_shape=(0, 6), triples=True, weight=0.01)])
 
 register("C12", "exploration", CONC_RULE,
          COMMON_ASSUME + ["a racing reader may report not-found as ValueError or FileNotFoundError"],
-         60, 600,
+         90, 600,
          [ConcPairsPart("C12", "meta", "conc-pairs", weight=1.0), ConcPart("C12", "meta", weight=2.0, mp="mixed"),
           ConcPairsPart("C12", "meta", "conc-triples", per_shape=(0, 8), triples=True, weight=0.01),
           ConcPart("C12", "metax", name="conc-collide", weight=0.5)])
